@@ -1,6 +1,7 @@
 import Sourcer.Proofs.Refine
 import Sourcer.Proofs.Bounds
 import Sourcer.Proofs.PrepareProofs
+import Sourcer.Proofs.RunProofs
 /-
   Property theorems (statements only; proofs are one-liners over Sourcer/Proofs/*).
   Every theorem is followed by an `example` showing its hypotheses are met by a concrete,
@@ -310,5 +311,86 @@ example :
     let Q := prepare exRules
     peg ⟨Q.bodies, Q.ignored, fun _ _ _ => none, false⟩ [32, 97, 32, 32, 98, 32] 40 (.ref Q.start) 0
       = some (.ok (.list [.str [97], .str [98]]) 6) := by rfl
+
+/-! ## C07 – packrat guarantee of the `_run` trampoline -/
+
+section C07
+open Run
+variable {K R : Type} [DecidableEq K]
+
+/-- the trampoline with its memo returns exactly what direct recursive evaluation of the rule
+    bodies returns (and it terminates whenever that evaluation does) -/
+theorem C07_memo_transparent (body : K → Prog K R) (n : Nat) (k0 : K) (r : R)
+    (h : eval body n k0 = some r) :
+    ∃ j, (steps body j (init body k0)).stack = [] ∧
+         (steps body j (init body k0)).pending = some r := by
+  obtain ⟨j, m', st', hj, _⟩ := run_key body n k0 r h [] (fun _ => none) [k0] (fun _ _ hm => by simp at hm)
+  exact ⟨j, by simp [init, hj], by simp [init, hj]⟩
+
+/-- a rule body is started only on a memo miss (no hypothesis on the grammar) -/
+theorem C07_started_only_on_miss (body : K → Prog K R) (s s' : State K R)
+    (h : step body s = some s') :
+    s'.starts = s.starts ∨ ∃ k, s'.starts = k :: s.starts ∧ s.memo k = none := by
+  unfold step at h
+  split at h
+  · simp at h
+  · split at h
+    · simp at h
+    · simp at h; subst h; exact Or.inl rfl
+    · split at h
+      · simp at h; subst h; exact Or.inl rfl
+      · rename_i hm
+        simp at h; subst h; exact Or.inr ⟨_, rfl, hm⟩
+
+/-- a later reference to a completed key receives the stored outcome itself, and nothing is
+    evaluated for it -/
+theorem C07_hit_returns_stored (body : K → Prog K R) (s : State K R) (key : K) (g : Gtor K R)
+    (rest : List (K × Gtor K R)) (k : K) (cont : R → Prog K R) (r : R)
+    (hst : s.stack = (key, g) :: rest) (hsend : send g s.pending = some (.call k cont))
+    (hm : s.memo k = some r) :
+    ∃ s', step body s = some s' ∧ s'.pending = some r ∧ s'.starts = s.starts ∧ s'.memo = s.memo := by
+  exact ⟨{ s with stack := (key, .waiting cont) :: rest, pending := some r },
+    by simp only [step, hst, hsend, hm], rfl, rfl, rfl⟩
+
+/-- when no key is requested while it is on the stack, every (rule, position) key is started at
+    most once in the whole run … -/
+theorem C07_at_most_once (body : K → Prog K R) (k0 : K) (hre : NoReentry body k0) (j : Nat) :
+    (steps body j (init body k0)).starts.Nodup :=
+  (inv_reachable body k0 hre j).starts_nodup
+
+/-- … hence the number of rule-body evaluations is bounded by the number of possible keys
+    (`rules × (len + 1)` when positions stay inside the input) -/
+theorem C07_evaluation_bound (body : K → Prog K R) (k0 : K) (hre : NoReentry body k0)
+    (U : List K) (j : Nat) (hU : ∀ k ∈ (steps body j (init body k0)).starts, k ∈ U) :
+    (steps body j (init body k0)).starts.length ≤ U.length :=
+  nodup_length_le _ _ (C07_at_most_once body k0 hre j) hU
+
+/-- … and a memo entry, once written, is never overwritten -/
+theorem C07_memo_write_once (body : K → Prog K R) (s s' : State K R) (hi : Inv s)
+    (hs : step body s = some s') (k : K) (r : R) (hm : s.memo k = some r) :
+    s'.memo k = some r := by
+  unfold step at hs
+  split at hs
+  · simp at hs
+  · rename_i key g rest hst
+    split at hs
+    · simp at hs
+    · simp at hs; subst hs
+      have hne : k ≠ key := by
+        intro heq; subst heq
+        have := hi.keys_not_memo k (by simp [keys, hst])
+        simp [this] at hm
+      simp [update, hne, hm]
+    · split at hs <;> (simp at hs; subst hs; exact hm)
+
+-- non-vacuity: rule 0 refers to rule 1 twice; the second reference is a memo hit
+def exBody : Nat → Prog Nat Nat
+  | 0 => .call 1 (fun a => .call 1 (fun b => .ret (a + b)))
+  | _ => .ret 5
+example : eval exBody 2 0 = some 10 := by rfl
+example : (steps exBody 10 (init exBody 0)).starts = [1, 0] := by rfl
+example : (steps exBody 10 (init exBody 0)).pending = some 10 := by rfl
+
+end C07
 
 end Sourcer
